@@ -766,7 +766,7 @@ class TT():
             result = TT(cores_new)
 
         elif isinstance(other, int) or isinstance(other, float) or isinstance(other, complex) or isinstance(other, np.number) or isinstance(other, tn.Tensor):
-            if other != 0:
+            if tn.is_tensor(other) or other != 0:
                 cores_new = [c+0 for c in self.cores]
                 cores_new[0] *= other
                 result = TT(cores_new)
